@@ -8,8 +8,16 @@ for fam, nm, nb, what in [(0, 'fix_nil_bool', 3, 'fixint / nil / bool / 0xC1'), 
     OBS.append(Ob(['C09', 'C03', 'C15', 'C16', 'C06'], 'md_variant_' + nm, 'mpd', 'harness/mpd.c', 'h_md_variant', defs=U + ['NB=%d' % nb, 'FAMILY=%d' % fam], unwind=nb + 3, cap=400, hunwind=20, fs='none',
         desc='MsgPackDeserializer::parseVariant == reference decoder on the %s codes: value/width/sign, bit-exact floats, bytes verbatim, truncation at every position => IncompleteInput, container headers hand count and unchanged limit to the (cut) readers' % what,
         bound='every code of the family x all continuations up to %d bytes x every truncation length; arena allocator' % nb))
+OBS.append(Ob(['C09', 'C03', 'C16'], 'md_key', 'mpd', 'harness/mpd.c', 'h_md_key', defs=U + ['NB=20'], unwind=23, cap=400, hunwind=24, fs='none',
+    desc='readKey == reference: only str formats, exact length for fixstr (0..31) / str8 / str16 / str32, truncation => IncompleteInput, bytes verbatim', bound='all 256 first bytes x all continuations up to 20 bytes x every truncation length'))
 UNITS += [Unit('mpd_dd', 'wrappers/mpd.cpp', defs=['ARENA_N=4', 'ARENA_CHUNK=64', 'ARDUINOJSON_POOL_CAPACITY=4', 'ARDUINOJSON_INITIAL_POOL_COUNT=2'])]
 for pl in (2, 5):
     OBS.append(Ob(['C06', 'C14', 'C09'], 'dedup_msgpack_pre%d' % pl, 'mpd_dd', 'harness/dedup.c', 'h_dedup', defs=['UNIT_H="mpd_dd.h"', 'MSGPACK=1', 'PRELEN=%d' % pl], unwind=14, cap=300, hunwind=12, fs=512,
         desc='deserializing fixstr "ab\\0cd" into a pool holding one string of %d symbolic bytes: full length kept, shared iff identical, reference count exact (StringBuffer::save / StringPool)' % pl,
         bound='all values of the %d bytes of the pre-existing string' % pl))
+UNITS += [Unit('mpd_cont', 'wrappers/mpd.cpp', defs=MPD, cuts={'CUT_MPV': r'MsgPackDeserializerI7VReaderE12parseVariantINS1_14AllowAllFilterE', 'CUT_ADD_ELEMENT': r'9ArrayData10addElementEPNS1_15ResourceManagerE$',
+    'CUT_ADD_MEMBER': r'10ObjectData9addMemberIPNS1_10StringNodeEEEPNS1_11VariantDataET_PNS1_15ResourceManagerE$', 'CUT_RKEY': r'MsgPackDeserializerI7VReaderE7readKeyEv'})]
+for ob_, nm in [(0, 'array'), (1, 'object')]:
+    OBS.append(Ob(['C15', 'C09', 'C03', 'C05'], 'md_read_' + nm, 'mpd_cont', 'harness/mpd_cont.c', 'h_md_container', defs=['UNIT_H="mpd_cont.h"', 'OBJECT=%d' % ob_], unwind=6, cap=300, hunwind=8, fs='none',
+        desc='MsgPack read%s one activation (children, keys and slot allocation cut): limit 0 => TooDeep first, children get limit-1, count honoured, first failure decides the code, NoMemory on a failed slot' % nm.capitalize(),
+        bound='announced count 0..3, all limits 0..255, every child / key / allocation behaviour allowed by the contracts'))
